@@ -2074,3 +2074,77 @@ M('C15','notifier-wait-no-recheck','runtime/valuenotifier/listener.go','''		if l
 		return nil
 	case <-l.deregisteredChan:''','''		return nil
 	case <-l.deregisteredChan:''','notifier/wait-success-only-on-notify')
+
+# ---------------- round 6: defects planted in the corrected twins of round 5/6 (the generalisations that
+# made those twins silent must not hide the re-opened defect)
+M('C02','ontwin-advance-compares-whole-source','serializer/serializer.go',"""	if len(d.src[d.offset:]) < n {
+		return d.offset, false
+	}""","""	if len(d.src) < n {
+		return d.offset, false
+	}""",'deser/bounds-guarded', base='C02-19')
+M('C02','ontwin-advance-result-ignored','serializer/serializer.go',"""	end, ok := d.advance(numBytes)
+	if !ok {""","""	end, ok := d.advance(numBytes)
+	if !ok && d.err != nil {""",'alloc/bounded-by-input', base='C02-19')
+M('C15','ontwin-poll-skips-flag-after-receive','runtime/valuenotifier/listener.go',"""	if l.deregistered.Load() {
+		return true, ErrListenerDeregistered
+	}
+
+	return done, nil""","""	if !done && l.deregistered.Load() {
+		return true, ErrListenerDeregistered
+	}
+
+	return done, nil""",'notifier/wait-success-only-on-notify', base='C15-19')
+M('C15','ontwin-poll-counts-deregistration-signal','runtime/valuenotifier/listener.go',"""	case <-l.channel:
+		done = true
+	default:
+	}
+""","""	case <-l.channel:
+		done = true
+	case <-l.deregisteredChan:
+		done = true
+	default:
+	}
+""",'notifier/wait-success-only-on-notify', base='C15-19')
+M('C02','ontwin-payload-window-too-short','serializer/serializer.go',"""	case payloadLength < TypeDenotationByteSize:""","""	case payloadLength < 1:""",'deser/bounds-guarded', base='C02-20')
+M('C14','ontwin-publish-without-generation-guard','ds/reactive/sorted_set_impl.go',"""		if modificationID < *publishedModificationID {
+			return currentElement
+		}
+""","""""",'sorted/end-published-through-alias', base='C14-20')
+M('C20','ontwin-cleanup-without-identity-test','app/daemon/daemon.go',"""	if d.workers[name] != finishedWorker {
+		return
+	}
+""","""	_ = finishedWorker
+""",'reg/replaces-only-cleaned-up-worker', base='C20-20')
+M('C17','ontwin-popwait-no-retest','runtime/syncutils/stack.go',"""		if b.elements.Len() != 0 {
+			break
+		}
+""","""""",'cond/wait-in-loop-under-locker', base='C17-20')
+M('C12','ontwin-undo-deletes-incremented-entry','web/subscriptionmanager/subscription_manager.go',"""				subscribedTopics.Set(topic, count)""","""				subscribedTopics.Delete(topic)""",'pair/client-global-count', base='C12-20')
+M('C06','ontwin-readthrough-caches-missing-value','kvstore/typedvalue.go',"""		if t.hasCached = &exists; exists {
+			t.valueCached = &currentValue
+		}""","""		t.hasCached = &exists
+		t.valueCached = &currentValue""",'cache/after-store-success', base='C06-20')
+M('C07','ontwin-lease-before-write','kvstore/sequence.go',"""	if err := seq.writeMark(reserved); err != nil {
+		return err
+	}
+	seq.reserved = reserved
+""","""	seq.reserved = reserved
+	if err := seq.writeMark(reserved); err != nil {
+		return err
+	}
+""",'seq/reserve-before-handout', base='C07-20')
+M('C08','ontwin-only-the-early-running-check','kvstore/batch_writer.go',"""	bw.scheduledCount.Add(1)
+
+	// abort if the BatchWriter has been stopped
+	if !bw.running.Load() {
+		bw.scheduledCount.Add(-1)
+
+		return
+	}
+""","""	bw.scheduledCount.Add(1)
+""",'publish/', base='C08-20')
+M('C19','ontwin-product-under-wrong-pin','core/safemath/safe_math.go',"""		if x == 1 || y == 1 {
+			return x * y, nil
+		}""","""		if x == 1 || y == 2 {
+			return x * y, nil
+		}""",'wrap/round-trip-validated', base='C19-20')
